@@ -178,21 +178,25 @@ def run(ctx):
     K_ = 2 * math.pi * 1.33 / 0.66
     geo = [(0.5, 0.1, 0.0), (-0.4, -0.2, 0.3), (0.1, 0.75, -0.2)]
     kinds = (("pair_real", [1.59, 1.59], [0.35, 0.35]), ("trimer_real", [1.59, 1.45, 1.59], [0.35, 0.2, 0.3]),
-             ("pair_absorbing", [1.59 + 0.05j, 1.5], [0.3, 0.35]), ("pair_tilted_yz", [1.59, 1.59], [0.35, 0.35]))
+             ("pair_absorbing", [1.59 + 0.05j, 1.5], [0.3, 0.35]), ("pair_tilted_yz", [1.59, 1.59], [0.35, 0.35]),
+             # the other solver of the interaction equations (biconjugate gradient, meth=0), converged tightly
+             ("pair_real_bcg", [1.59, 1.59], [0.35, 0.35]), ("trimer_real_bcg", [1.59, 1.45, 1.59], [0.35, 0.2, 0.3]))
     # each cluster call integrates the asymmetry adaptively (~5 s): quick keeps 5 of the 15
     tilted = [(0.0, 0.27, -0.27), (0.0, -0.27, 0.27)]       # a pair tilted in the y-z plane: no symmetry between y > 0 and y < 0
-    for kind, ns, rs in (kinds[:1] + kinds[2:] if quick else kinds):
+    for kind, ns, rs in (kinds[:1] + kinds[2:5] if quick else kinds):
         pos_ = tilted if kind == "pair_tilted_yz" else geo
+        MS = (lambda: Multisphere(meth=0, eps=1e-10)) if kind.endswith("_bcg") else Multisphere
         cl = Spheres([Sphere(n=n_, r=r_, center=pos_[i]) for i, (n_, r_) in enumerate(zip(ns, rs))])
         fwd = detector_points(theta=np.array([0.0]), phi=np.array([0.0]), r=1e4)
-        for psi in (((0.0, 0.4, 2.2) if kind == "pair_real" else (0.0, 0.9) if kind == "pair_tilted_yz" else (math.pi / 2, math.pi / 4))
+        for psi in (((0.0, 0.4, 2.2) if kind == "pair_real" else (0.0, 0.9) if kind == "pair_tilted_yz" else (0.4,) if kind.endswith("_bcg")
+                     else (math.pi / 2, math.pi / 4))
                     if quick else (0.0, math.pi / 2, 0.4, math.pi / 4, 2.2)):
             ctx.case(("cluster", kind, round(psi, 3)), nontrivial=True)
             px, py = math.cos(psi), math.sin(psi)
             try:
-                cs = calc_cross_sections(cl, illum_polarization=(px, py), theory=Multisphere(), medium_index=1.33,
+                cs = calc_cross_sections(cl, illum_polarization=(px, py), theory=MS(), medium_index=1.33,
                                          illum_wavelen=0.66).values
-                S0 = calc_scat_matrix(fwd, cl, theory=Multisphere(), medium_index=1.33, illum_wavelen=0.66).values[0]
+                S0 = calc_scat_matrix(fwd, cl, theory=MS(), medium_index=1.33, illum_wavelen=0.66).values[0]
             except Exception as e:
                 ctx.violation("cluster/exception", {"kind": kind, "exc": repr(e)[:200]})
                 continue
@@ -204,7 +208,7 @@ def run(ctx):
             phs_ = np.arange(nph_) * 2 * math.pi / nph_
             TH, PH = np.meshgrid(np.arccos(mu_), phs_, indexing="ij")
             dirs = detector_points(theta=TH.ravel(), phi=PH.ravel(), r=1e4)
-            Sg = calc_scat_matrix(dirs, cl, theory=Multisphere(), medium_index=1.33, illum_wavelen=0.66).values
+            Sg = calc_scat_matrix(dirs, cl, theory=MS(), medium_index=1.33, illum_wavelen=0.66).values
             epar = px * np.cos(PH.ravel()) + py * np.sin(PH.ravel())
             eper = px * np.sin(PH.ravel()) - py * np.cos(PH.ravel())
             inten_ = (np.abs(Sg[:, 0, 0] * epar + Sg[:, 0, 1] * eper) ** 2 + np.abs(Sg[:, 1, 0] * epar + Sg[:, 1, 1] * eper) ** 2)
